@@ -224,8 +224,20 @@ class Summaries:
                         for c in node_calls(n, 'PyDict_SetItem'))
                     dropped = lambda n, var=var: any(
                         is_var(c.a[1][0], var) for c in node_calls(n, 'Py_DECREF'))
+                    xdropped = lambda n, var=var: any(
+                        is_var(c.a[1][0], var) for c in node_calls(n, 'Py_DECREF') +
+                        node_calls(n, 'Py_XDECREF'))
+                    pnames = {p for p, t in (getattr(f, 'params', []) or [])}
                     if g.must_pass_after(d, stored, target=r) and \
                             g.must_pass_after(d, dropped, target=r):
+                        kinds.add('borrowed')
+                    elif val.a[0] == 'PyObject_GetAttr' and len(val.a[1]) == 2 and \
+                            val.a[1][0] is not None and val.a[1][0].k == 'var' and \
+                            val.a[1][0].a[0] in pnames and \
+                            show(val.a[1][1]) == 'str__self__' and \
+                            g.must_pass_after(d, xdropped, target=r):
+                        # the co-owned __self__ of a super parameter, handed
+                        # back after our own reference was dropped
                         kinds.add('borrowed')
                     else:
                         kinds.add('new')
